@@ -14,9 +14,9 @@
    by specificity over injected sheet ++ document sheets), `x_style` the declarations of its `style`
    attribute.  The `font` shorthand is not modelled (generators never emit it). *)
 From Coq Require Import String.
-From RV Require Import Model.Base Gen.SvgTables Gen.Units.
+From RV Require Import Model.Base Gen.SvgTables Gen.Units Model.CascadeBase Gen.SvgInsert.
 
-Record attr := { a_name : AId; a_value : string; a_imp : bool }.
+(* `attr` (name, value, important) is defined in Model/CascadeBase.v *)
 
 Inductive dname := DMarker | DAttr (a : AId).
 Record decl := { d_name : dname; d_value : string; d_imp : bool }.
@@ -91,31 +91,24 @@ Definition copy_attr (anc : list (list attr)) (tag : EId) (ignore_ids : bool)
        | None => cur
        end.
 
-(* insert_attribute, literally: remember the position of an existing attribute of that name, append,
-   then swap (if the existing one is not important) and pop. *)
 Fixpoint position (a : AId) (l : list attr) : option nat :=
   match l with
   | [] => None
   | x :: r => if has_name a x then Some O else option_map S (position a r)
   end.
-Fixpoint set_nth (n : nat) (y : attr) (l : list attr) : list attr :=
-  match l, n with
-  | [], _ => []
-  | _ :: r, O => y :: r
-  | x :: r, S k => x :: set_nth k y r
-  end.
+(* insert_attribute: remember the position of an existing attribute of that name, append (append_attribute), and -
+   when something was appended and a previous one exists - run the SOURCE-DERIVED fix-up block
+   (Gen.SvgInsert.insert_fixup: swap with the last element when the existing one gives way, then pop). *)
 Definition insert_attribute (anc : list (list attr)) (tag : EId)
            (cur : list attr) (a : AId) (v : string) (imp : bool) : list attr :=
+  let idx := position a cur in
   match resolve_value anc tag a v imp with
   | None => cur
   | Some nw =>
-      match position a cur with
-      | None => cur ++ [nw]
-      | Some i =>
-          match nth_error cur i with
-          | Some ex => if new_has_precedence (a_imp ex) then set_nth i nw cur else cur
-          | None => cur
-          end
+      let l := cur ++ [nw] in
+      match idx with
+      | Some i => insert_fixup l i
+      | None => l
       end
   end.
 
